@@ -182,14 +182,17 @@ fn run_case(seed: u64, id: u64, out: &mut Vec<String>) {
     let mut last_len = 0;
     let mut stable = Instant::now();
     let mut settled = false;
-    while t0.elapsed() < Duration::from_millis(8000) {
+    while t0.elapsed() < Duration::from_millis(20000) {
         let tr = V::trace_snapshot();
         if tr.len() != last_len { last_len = tr.len(); stable = Instant::now(); }
         let spawns = tr.iter().filter(|e| e.1 == "pv.spawn").count();
         let exits = tr.iter().filter(|e| e.1 == "pv.exit").count();
         let sends = tr.iter().filter(|e| e.1 == "pv.send").count();
         let handled: usize = tr.iter().filter(|e| e.1 == "pv.recv").count() + tr.iter().filter(|e| e.1 == "pv.drain").map(|e| e.2).sum::<usize>();
-        if spawns == exits && sends == handled && stable.elapsed() > Duration::from_millis(450) { settled = true; break; }
+        // the worker is back in recv (its last record closes a cycle), every child has reported, nothing moved for 600 ms
+        let worker_idle = tr.iter().rev().find(|e| matches!(e.1, "pv.recv" | "pv.kill" | "pv.joined" | "pv.drain" | "pv.spawn" | "pv.text" | "pv.noop"))
+            .map(|e| matches!(e.1, "pv.spawn" | "pv.text" | "pv.noop")).unwrap_or(sends == 0);
+        if spawns == exits && sends == handled && worker_idle && stable.elapsed() > Duration::from_millis(600) { settled = true; break; }
         std::thread::sleep(Duration::from_millis(10));
     }
     let final_first = pv.verif_content().lock().first().map(|l| l.stripped().to_string());
@@ -229,7 +232,7 @@ fn run_case(seed: u64, id: u64, out: &mut Vec<String>) {
             else { bad = Some((format!("call #{} differs from the previous request but nothing was sent", k), None)); break; }
         }
     }
-    if !settled && bad.as_ref().map(|b| b.1.is_some()).unwrap_or(true) { bad = Some(("preview activity did not settle within 8 s".to_string(), None)); }
+    if !settled && bad.as_ref().map(|b| b.1.is_some()).unwrap_or(true) { bad = Some(("preview activity did not settle within 20 s".to_string(), None)); }
     // monotone: the shown outputs are those of increasing request numbers
     let idx_of = |first: &str| -> Option<usize> { labels_of_send.iter().rposition(|l| l == first) };
     let mut seen_nos: Vec<usize> = Vec::new();
